@@ -51,7 +51,17 @@ theorem stLine_ns (x : CR) (h : NS (stLine x)) : NS x := by
   unfold stLine at h
   split at h
   · exact absurd h (idleReqLine_ns _ _)
+  · simp [NS, isNoSpace] at h
   · exact h
+
+theorem startBody_ns (cfg : Cfg) (x : CR) (hd : Headers) (rq : Rq) (ch : Bool) (n : Nat) :
+    ¬ NS (startBody cfg x hd rq ch n) := by
+  intro h
+  unfold startBody at h
+  split at h
+  · simp [NS, isNoSpace] at h
+  · simp only at h
+    split at h <;> simp [NS, isNoSpace] at h
 
 theorem stAfter_ns (cfg : Cfg) (x : CR) (h : NS (stAfter cfg x)) : NS x := by
   unfold stAfter at h
@@ -61,9 +71,11 @@ theorem stAfter_ns (cfg : Cfg) (x : CR) (h : NS (stAfter cfg x)) : NS x := by
     split at h
     · exact h
     · have := errorOut_ns _ _ h; simp at this
-    · simp [NS, isNoSpace] at h
-    · split at h <;> simp [NS, isNoSpace] at h
-    · simp [NS, isNoSpace] at h
+    · exfalso
+      split at h
+      · simp [NS, isNoSpace] at h
+      · simp [NS, isNoSpace] at h
+      · split at h <;> exact startBody_ns _ _ _ _ _ _ h
   · exact h
 
 theorem processBody_ns (cfg : Cfg) (x : CR) (b : Body) : ¬ NS (processBody cfg x b) := by
@@ -73,6 +85,7 @@ theorem processBody_ns (cfg : Cfg) (x : CR) (b : Body) : ¬ NS (processBody cfg 
   split at h
   · simp [NS, isNoSpace] at h
   · have := errorOut_ns _ _ h; simp at this
+  · simp [NS, isNoSpace] at h
   · split at h <;> simp [NS, isNoSpace] at h
 
 theorem idleBody_ns (cfg : Cfg) (x : CR) (b : Body) (h : NS (idleBody cfg x b)) : NS x := by
@@ -754,6 +767,7 @@ theorem processBody_size (cfg : Cfg) (x : CR) (b : Body) : asz (processBody cfg 
   split
   · rfl
   · exact errorOut_size _ _
+  · rfl
   · split
     · rfl
     · rename_i c1 h; have := op_size h; exact this
@@ -774,12 +788,15 @@ theorem idleBody_size (cfg : Cfg) (x : CR) (b : Body) : asz (idleBody cfg x b) =
 
 theorem afterHeaders_size (cfg : Cfg) (x : CR) (h : Headers) (rq : Rq) : asz (afterHeaders cfg x h rq) = asz x := by
   unfold afterHeaders
+  have sb : ∀ ch n, asz (startBody cfg x h rq ch n) = asz x := by
+    intro ch n; unfold startBody; split; rfl; simp only; split <;> rfl
   split
   · rfl
   · exact errorOut_size _ _
-  · rfl
-  · split <;> rfl
-  · rfl
+  · split
+    · rfl
+    · rfl
+    · split <;> exact sb _ _
 
 theorem finishRequest_size (x : CR) (buf : Bytes) (rb : Nat) : asz (finishRequest x buf rb).1 = asz x := by
   unfold finishRequest
@@ -791,7 +808,7 @@ theorem finishRequest_size (x : CR) (buf : Bytes) (rb : Nat) : asz (finishReques
     · rename_i c2 h2; exact (op_size h2).trans (op_size h1)
 
 theorem idlePass_size (cfg : Cfg) (x : CR) : asz (idlePass cfg x).1 = asz x := by
-  have e1 : asz (stLine x) = asz x := by unfold stLine; split; exact idleReqLine_size _ _; rfl
+  have e1 : asz (stLine x) = asz x := by unfold stLine; split; exact idleReqLine_size _ _; rfl; rfl
   have e2 : ∀ y, asz (stHeaders y) = asz y := by
     intro y; unfold stHeaders; split; exact hdrLoop_size _ _ _ _ _ _; rfl
   have e3 : ∀ y, asz (stAfter cfg y) = asz y := by
